@@ -120,6 +120,8 @@ type opOut struct {
 }
 
 type runResult struct {
+	retained  [][]byte // the raw slices Read returned (not copied)
+	copies    []string // their content at return time
 	Ops       []string
 	Outs      []opOut
 	Violation string
@@ -167,6 +169,8 @@ func drive(r *vh.Rng, t omniparser.Transform, log *vh.Log, ei *vh.ErrIntern, bui
 			be, ee := "None", "None"
 			if b != nil {
 				s := string(b)
+				res.retained = append(res.retained, b)
+				res.copies = append(res.copies, s)
 				o.Bytes = &s
 				id, ok := bytesIDs[s]
 				if !ok {
@@ -242,6 +246,15 @@ func drive(r *vh.Rng, t omniparser.Transform, log *vh.Log, ei *vh.ErrIntern, bui
 			}
 		}
 	}
+	defer func() {
+		// the bytes of a returned record must stay what they were, whatever is read afterwards
+		for i, b := range res.retained {
+			if string(b) != res.copies[i] {
+				fail("a record returned by Read changed after later calls: was %q, is now %q", res.copies[i], b)
+				break
+			}
+		}
+	}()
 	if fixed != nil {
 		for _, op := range fixed {
 			doOp(op)
